@@ -2306,6 +2306,11 @@ def _inject_calls(repo, fi, wanted, chain=(), seen=None):
             if isinstance(target, ast.Attribute) and target.attr in wanted:
                 out.append((fi, c, chain))
                 continue
+        if isinstance(c.func, ast.Attribute) and c.func.attr in wanted and isinstance(c.func.value, ast.Name) and \
+                c.func.value.id not in ('self', 'cls') and c.func.value.id in _local_names(fi) and fi.name not in wanted:
+            # the peripheral's method called directly (no injection): the same call as far as failing is concerned
+            out.append((fi, c, chain))
+            continue
         for callee in _callees_of(repo, fi, c):
             if callee.mod is fi.mod and callee.name not in ('get_main', 'render_main_page_html'):
                 out.extend(_inject_calls(repo, callee, wanted, chain + ((fi, c),), seen))
@@ -2379,10 +2384,49 @@ def _substitutes(fi, h, in_helper):
     return False
 
 
+PERIPHERAL_CALLS = ('get_context', 'render_main_page_html', 'get_general_items')
+
+
+def _routed_methods(repo, meta, ci):
+    """The methods of the meta application that are installed as an endpoint or a renderer of one of its routes:
+    ``self.<m>`` inside a route tuple ``('/path', ..)`` or a ``Route('/path', ..)`` / ``GET('/path', ..)`` call, anywhere in the class."""
+    out = []
+    for m in ci.methods.values():
+        me = (m.params() or [None])[0]
+        for n in _walk(m):
+            elts = None
+            if isinstance(n, (ast.Tuple, ast.List)) and 2 <= len(n.elts) <= 4:
+                elts = list(n.elts)
+            elif isinstance(n, ast.Call) and n.args:
+                elts = list(n.args) + [k.value for k in n.keywords]
+            if not elts:
+                continue
+            path = _fold_str(repo, m, elts[0])
+            if path is None or not path.startswith('/'):
+                continue
+            for x in elts[1:]:
+                if isinstance(x, ast.Attribute) and isinstance(x.value, ast.Name) and x.value.id == me:
+                    t = repo.find_method(ci, x.attr)
+                    if t is not None and t.mod is meta and not any(t is y for y in out):
+                        out.append(t)
+    return out
+
+
 def _r18c(rep, repo, meta):
     gmn = meta.func('MetaApplication.get_main')
     rmp = meta.func('MetaApplication.render_main_page_html')
-    for anchor, wanted, floor in ((gmn, ('get_context',), 1), (rmp, ('render_main_page_html', 'get_general_items'), 2)):
+    anchors = [(gmn, ('get_context',), 1), (rmp, ('render_main_page_html', 'get_general_items'), 2)]
+    # sibling views: every other method of the meta application that is routed (a second JSON endpoint, a renderer of its
+    # own) and runs peripheral code is held to the same standard
+    routed = _routed_methods(repo, meta, meta.cls('MetaApplication'))
+    if not any(r is gmn for r in routed):
+        raise AnalysisError('MetaApplication: get_main is not found among the routed methods (%s): the route table was not recognised'
+                            % [r.qualname for r in routed])
+    for r in routed:
+        if r is not gmn and r is not rmp:
+            anchors.append((r, PERIPHERAL_CALLS, 0))
+    rep.ok('R18.c', '%s::routed methods' % META, 'methods of the meta application installed in its routes: %s' % sorted(r.name for r in routed), meta)
+    for anchor, wanted, floor in anchors:
         inj = _inject_calls(repo, anchor, wanted)
         if len(inj) < floor:
             raise AnalysisError('%s: %d inject calls of %s found (floor %d)' % (anchor.qualname, len(inj), '/'.join(wanted), floor))
